@@ -142,7 +142,7 @@ func (d *DrefBox) EncodeSW(sw bits.SliceWriter) error {
 			return err
 		}
 	}
-	return err
+	return sw.AccError()
 }
 
 // Info - write box-specific information
